@@ -2388,14 +2388,25 @@ static int _ov_64_seek_lap(OggVorbis_File *vf,ogg_int64_t pos,
 }
 
 int ov_raw_seek_lap(OggVorbis_File *vf,ogg_int64_t pos){
+  /* refuse what the seek would refuse before any lapping data is
+     pulled out of the decoder: a rejected call must not move us */
+  if(vf->ready_state<OPENED)return(OV_EINVAL);
+  if(!vf->seekable)return(OV_ENOSEEK);
+  if(pos<0 || pos>vf->end)return(OV_EINVAL);
   return _ov_64_seek_lap(vf,pos,ov_raw_seek);
 }
 
 int ov_pcm_seek_lap(OggVorbis_File *vf,ogg_int64_t pos){
+  if(vf->ready_state<OPENED)return(OV_EINVAL);
+  if(!vf->seekable)return(OV_ENOSEEK);
+  if(pos<0 || pos>ov_pcm_total(vf,-1))return(OV_EINVAL);
   return _ov_64_seek_lap(vf,pos,ov_pcm_seek);
 }
 
 int ov_pcm_seek_page_lap(OggVorbis_File *vf,ogg_int64_t pos){
+  if(vf->ready_state<OPENED)return(OV_EINVAL);
+  if(!vf->seekable)return(OV_ENOSEEK);
+  if(pos<0 || pos>ov_pcm_total(vf,-1))return(OV_EINVAL);
   return _ov_64_seek_lap(vf,pos,ov_pcm_seek_page);
 }
 
@@ -2449,9 +2460,15 @@ static int _ov_d_seek_lap(OggVorbis_File *vf,double pos,
 }
 
 int ov_time_seek_lap(OggVorbis_File *vf,double pos){
+  if(vf->ready_state<OPENED)return(OV_EINVAL);
+  if(!vf->seekable)return(OV_ENOSEEK);
+  if(pos<0 || !(pos<ov_time_total(vf,-1)))return(OV_EINVAL);
   return _ov_d_seek_lap(vf,pos,ov_time_seek);
 }
 
 int ov_time_seek_page_lap(OggVorbis_File *vf,double pos){
+  if(vf->ready_state<OPENED)return(OV_EINVAL);
+  if(!vf->seekable)return(OV_ENOSEEK);
+  if(pos<0 || !(pos<ov_time_total(vf,-1)))return(OV_EINVAL);
   return _ov_d_seek_lap(vf,pos,ov_time_seek_page);
 }
